@@ -89,7 +89,8 @@ def cvode_passes(tier):
     if tier == "quick":
         # positions {1,2,mid,last-1,last} on every level, both ends of the recoverable range + reset + two fatal flags
         P.append(("T1", 1, 0, [-1, -6, -5], [0.5], [0], 0, 3.15e7))
-        P.append(("T3", 3, 0, [-1, -2, -3, -4, -5, -6, -7, -8], [0.0, 0.5], [0, 99], 1, 1.0))
+        # (every documented CVODE failure class: -1..-8 and representatives of the rest: RHS failures -9..-11, illegal input -22, tout too close -27)
+        P.append(("T3", 3, 0, [-1, -2, -3, -4, -5, -6, -7, -8, -9, -11, -22, -27], [0.0, 0.5], [0, 99], 1, 1.0))
         for dt in (1e-12, 1e30):  # the interval is a number, not a number of seconds: tiny and huge values too
             P.append((f"T3@{dt:g}", 3, 0, [-1, -6, -5], [0.5], [0], 1, dt))
         for lvl in (1, 5):
@@ -97,7 +98,7 @@ def cvode_passes(tier):
     else:
         P.append(("T1", 1, 0, [-1, -4, -6, -5, -7], [0.0, 0.5], [0], 0, 3.15e7))
         for dt in (1.0, 3.15e7, 1e-3, 1e-12, 1e30):
-            P.append((f"T3@{dt:g}", 3, 0, [-1, -2, -3, -4, -5, -6, -7, -8], [0.0, 0.5, 1 - 2.0**-20], [0, 99], 1, dt))
+            P.append((f"T3@{dt:g}", 3, 0, [-1, -2, -3, -4, -5, -6, -7, -8, -9, -10, -11, -22, -27], [0.0, 0.5, 1 - 2.0**-20], [0, 99], 1, dt))
         for lvl in (1, 2, 3, 4, 5):
             for dt in (1.0, 3.15e7, 1e-3):
                 P.append((f"T2.{lvl}@{dt:g}", 2, lvl, [-1, -4, -6, -5], [0.0, 0.5], [0], 0, dt))
@@ -204,7 +205,7 @@ def run(ctx):
     ctx.assumptions += [
         "the integrator is a scripted mock of y' = 1: CVode(tout) either succeeds (y += tout - t_cur, *tret = tout, returns 0 or a positive warning) or fails with flag f after progress p*(tout - t_cur) (*tret = time reached); CVodeReInit may fail where stated; so y - y0 is the integrated time",
         "SUCCESS => |y - y0 - dt| <= 1e-9*dt (the ladder recomputes dt as pow(10, log10(dt))) and the last answer was a success; FAIL <=> last answer a failure/failed re-init, with the 'y[0] =' line of the initial state in the error record; no CVode call after an unrecoverable flag; tout strictly increasing inside a level",
-        "flags: recoverable -1..-4, reset -6, every other negative flag unrecoverable; failure positions are restricted per pass (mode 1: steps {1,2,middle,last-1,last} of every level; mode 2: every step of one level, step 1 elsewhere; mode 3: step 1 of every level with the full flag alphabet); each pass is exhaustive for its alphabet unless 'capped' is reported",
+        "flags: recoverable -1..-4, reset -6, every other negative flag unrecoverable (alphabet: -1..-8 and -9, -11, -22, -27; thorough also -10); failure positions are restricted per pass (mode 1: steps {1,2,middle,last-1,last} of every level; mode 2: every step of one level, step 1 elsewhere; mode 3: step 1 of every level with the full flag alphabet); each pass is exhaustive for its alphabet unless 'capped' is reported",
         "the error record's fopen is routed to an in-memory stream by a forced include (harness build flag); the generated text is not edited",
         "python entry point (harness dense+py): the library is built with -DPYMODULE against a functional pybind11 stand-in and the driver calls PyWrapSolve; an exception counts as FAIL, a returned array as SUCCESS with that array as the final state - the same oracle over the same choice sequences",
         "cuSPARSE Solve: the CUDA runtime / cuSPARSE / cuSOLVER names are emulated on the host (device memory = heap), Fex/Jac/InitJac kernels are link-time stubs; only the Solve control flow is exercised",
